@@ -325,3 +325,26 @@ def finish(pid, tier, seed, t0, audit, out, assumptions=None):
           % (pid, tier, seed, audit['obligations'], audit['discharged'], out.evaluations, len(out.nontrivial),
              len(out.corr_failures), nviol, time.time() - t0))
     return 1 if nviol else 0
+
+
+def eval_coq(header, body, expr, name='dbg', timeout=300):
+    """Evaluate one expression with vm_compute; returns Coq's printed value (whitespace-normalised)."""
+    d = os.path.join(BUILD, 'cases')
+    os.makedirs(d, exist_ok=True)
+    fn = os.path.join(d, name + '.v')
+    with open(fn, 'w') as f:
+        f.write(header + '\n' + body + '\nEval vm_compute in (%s).\n' % expr)
+    rc, out = sh('timeout %d coqc -q -noglob -Q %s Epsie -w none %s' % (timeout, THEORIES, fn), timeout=timeout + 30)
+    if rc != 0:
+        raise RuntimeError(out[-1500:])
+    flat = ' '.join(out.split())
+    m = re.search(r'=\s*(.*)\s*:\s*[^:]*$', flat)
+    return m.group(1).strip() if m else flat
+
+
+def parse_nested_ints(s):
+    """'[[1; 2]; [3]]' -> [[1, 2], [3]]"""
+    s = s.replace('%Z', '').replace('%nat', '').replace(';', ',')
+    s = re.sub(r'\(\s*(-?\d+)\s*\)', r'\1', s)
+    import ast
+    return ast.literal_eval(s)
